@@ -16,7 +16,7 @@ ASSUMPTIONS = ["reference grammar and lexer in vf/refparse.py (cross-checked on 
                "semantic rejections raised inside the parser (literal register size <= 0) and unlisted constructs (branch/case, "
                "'0101' literals, import..as) are outside the grammar clause and not judged"]
 TIERS = {"quick": {"shards": 8, "budget_s": 50}, "thorough": {"shards": 16, "budget_s": 480}}
-REQUIRE = {"layouts-checked": 2000, "near-misses-judged": 5000, "both-reject:position-checked": 2000,
+REQUIRE = {"shards-reducing-every-production-of-the-listed-grammar": 1, "layouts-checked": 2000, "near-misses-judged": 5000, "both-reject:position-checked": 2000,
            "layout:multiple-block-comments": 100, "layout:multiline-block-comment": 50, "layout:line-comment": 200,
            "mutation:truncate": 500, "mutation:header-after-body": 100, "both-accept:tree-compared": 300}
 
@@ -283,9 +283,47 @@ def near_misses(ctx, prog, n):
             rec.violation(sig("C02", "near-miss:" + clause), detail, {"kind": "text", "text": text})
 
 
+_REDUCED = {}
+
+
+def install_production_counters():
+    """Count reductions per grammar production of the real LR parser (each Production's action
+    function is wrapped; one function can serve several productions, so counting is per production)."""
+    from jaqalpaq.parser import slyparse
+
+    prods = slyparse.JaqalParser._grammar.Productions
+    if _REDUCED:
+        return prods
+    for p in prods:
+        if not callable(getattr(p, "func", None)):
+            continue
+        key = "%d:%s -> %s" % (p.number, p.name, " ".join(str(x) for x in p.prod) or "<empty>")
+        _REDUCED[key] = 0
+
+        def counted(parser, pslice, _f=p.func, _k=key):
+            _REDUCED[_k] += 1
+            return _f(parser, pslice)
+
+        p.func = counted
+    return prods
+
+
+def report_productions(rec):
+    never = sorted((k for k, v in _REDUCED.items() if v == 0), key=lambda k: int(k.split(":")[0]))
+    outside = ("branch", "case", "import")  # constructs outside the listed grammar (not judged by C02)
+    if _REDUCED and all(any(w in k.split(" -> ")[0] or w in k.split(" -> ")[1].lower() for w in outside) for k in never):
+        rec.count("shards-reducing-every-production-of-the-listed-grammar")
+    rec.maximum("productions-reduced-in-one-shard", sum(1 for v in _REDUCED.values() if v))
+    rec.maximum("productions-total", len(_REDUCED))
+    rec.count("reductions-observed", sum(_REDUCED.values()))
+    rec.note("productions_never_reduced_in_shard_0", never)
+    rec.note("reductions_per_production_in_shard_0", dict(sorted(_REDUCED.items(), key=lambda kv: int(kv[0].split(":")[0]))))
+
+
 def shard(ctx):
     rec = ctx.rec
     monitors.install_contracts()
+    install_production_counters()
     n = ctx.scale(3000, 100000)
     i = 0
     while i < n and not rec.expired():
@@ -299,6 +337,7 @@ def shard(ctx):
         if i <= 2:
             rec.sample({"layout": sx.to_text(prog, random.Random(i))})
     # the reach of parser productions is reported as evidence
+    report_productions(rec)
     monitors.report_contracts(rec)
 
 
